@@ -96,8 +96,8 @@ func c15Fill(tbl *Table, n int, withIdx bool) (*c13Slots, *c15Pre) {
 		}
 		perms := c16Perms[n]
 		which := 0
-		if len(perms) > 2 && nd.Tier() == 0 {
-			// quick tier: the identity and the reversed order only
+		if len(perms) > 2 {
+			// three rows: the identity and the reversed order only
 			which = nd.Pick("perm", 2) * (len(perms) - 1)
 		} else {
 			which = nd.Pick("perm", len(perms))
@@ -360,6 +360,17 @@ func c15View(db *Database, ctx *sql.Context) *TableData {
 	return t.(*Table).sessionTableData(ctx)
 }
 
+// c15MaxEdits: rows and row edits together are at most 4 (the final sort forks
+// on every order of the keys): up to 2 edits on up to 2 rows at the quick tier,
+// up to 3 edits / up to 3 rows at the thorough tier.
+func c15MaxEdits(n int) int {
+	e := nd.Bound(2, 3)
+	if n+e > 4 {
+		e = 4 - n
+	}
+	return e
+}
+
 // VerifC15LocalStatement: a table that ignores session data (NewLocalTable),
 // one statement of k row edits on the editor the table hands out, ended by
 // StatementComplete, by DiscardChanges(hard error) or by
@@ -371,7 +382,7 @@ func VerifC15LocalStatement() {
 	tbl := NewLocalTable(nil, nil, "t", c15Schema(), nil)
 	m, pre := c15Fill(tbl, n, withIdx)
 	ed := tbl.getTableEditor(nil).(*tableEditor)
-	ending := c15Cycle(ed, nil, m, "e", 0, 2)
+	ending := c15Cycle(ed, nil, m, "e", 0, c15MaxEdits(n))
 	cerr := ed.Close(nil)
 	nd.Observe(ending, cerr)
 	if ending == c15Complete {
@@ -404,10 +415,10 @@ func c15Begin(n int, withIdx bool) (db *Database, base *Table, ctx *sql.Context,
 // what the session reads next, and that the rows of the database's own copy
 // are untouched (nothing is committed).
 func VerifC15SessionStatement() {
-	n := nd.IntRange("n", 0, 2)
+	n := nd.IntRange("n", 0, nd.Bound(2, 3))
 	withIdx := nd.Bool("index")
 	db, base, ctx, ed, m, pre := c15Begin(n, withIdx)
-	ending := c15Cycle(ed, ctx, m, "e", 0, nd.Bound(2, 3))
+	ending := c15Cycle(ed, ctx, m, "e", 0, c15MaxEdits(n))
 	cerr := ed.Close(ctx)
 	nd.Observe(ending, cerr)
 	view := c15View(db, ctx)
